@@ -294,18 +294,22 @@ def run_ign(case, viol, obs):
         elif r_ < 0.8:
             base["flow"][e] = 47 if base["wt"] == "int" else 47.5      # an outlier value (in every variant): the optimum without the element tends to avoid it
     variants = {"ignore": (dict(kw0, elements_to_ignore=[ej]), {}, [])}
+    if rng.random() < 0.5:
+        # the same ignore list handed over as a one-shot iterable (a generator): same entries, same answer
+        variants["ignore(as-generator)"] = (dict(kw0, elements_to_ignore=[ej], elements_to_ignore_as="generator"), {}, [])
     big = 97 if base["wt"] == "int" else 97.5
-    if cls not in W.COV and not trusted_variant:
+    if cls not in W.COV and (not trusted_variant or "trusted_edges_for_safety_percentile" in kw0):
+        # (also under a trust PERCENTILE: it is taken over the elements whose value counts, so the value of an ignored one does not move it)
         variants["ignore+garbage"] = (dict(kw0, elements_to_ignore=[ej]), {e: big}, [])
         variants["ignore+zero"] = (dict(kw0, elements_to_ignore=[ej]), {e: 0}, [])
         variants["ignore+missing"] = (dict(kw0, elements_to_ignore=[ej]), {}, [e])
     if cls in W.ERR:
         variants["scale0"] = (dict(kw0, error_scaling=[[ej, 0]]), {}, [])
-        if not trusted_variant:
+        if not trusted_variant or "trusted_edges_for_safety_percentile" in kw0:
             variants["scale0+garbage"] = (dict(kw0, error_scaling=[[ej, 0]]), {e: big}, [])
         variants["ignore+scale1"] = (dict(kw0, elements_to_ignore=[ej], error_scaling=[[ej, 1]]), {}, [])
     M.TRACE.install()
-    out = {}; caps = {}
+    out = {}; caps = {}; trusted_sets = {}
     for name, (kw, garbage, drop) in variants.items():
         sp = gen.spec(base["nodes"], base["edges"]) if cls in W.COV else I.spec_of(base, drop_attr=drop, garbage=garbage)
         if cls in W.COV and node:
@@ -313,6 +317,7 @@ def run_ign(case, viol, obs):
         res = run({"cls": cls, "spec": sp, "kw": kw})
         out[name] = summary(cls, res)
         caps[name] = {str(k): v for k, v in (getattr(res.get("model"), "edge_upper_bounds", None) or {}).items() if "source_" not in str(k) and "sink_" not in str(k)}
+        trusted_sets[name] = frozenset(str(x) for x in (getattr(res.get("model"), "trusted_edges_for_safety", None) or []))
         if out[name] == ("time-limit",):
             obs["c10.time_limited"] += 1
             break          # heavy-tailed instance: the remaining variants would only burn the budget
@@ -324,7 +329,10 @@ def run_ign(case, viol, obs):
     if len(set(vals.values())) > 1:
         ref_ = vals.get("ignore")
         diff = {k: v for k, v in vals.items() if v != ref_}
-        if all(caps.get(k) != caps.get("ignore") for k in diff) and cls.endswith("Cycles"):
+        if "trusted_edges_for_safety_percentile" in kw0 and all(trusted_sets.get(k) != trusted_sets.get("ignore") for k in diff if "garbage" in k or "zero" in k) and any("garbage" in k or "zero" in k for k in diff):
+            # the set of edges trusted under the percentile differs between variants that differ only in the VALUE of the switched-off element
+            sig = f"C10/ignore-variants-disagree/{cls}/trusted-percentile-moved-by-the-value-of-a-switched-off-element"
+        elif all(caps.get(k) != caps.get("ignore") for k in diff) and cls.endswith("Cycles"):
             # one mechanism: the walk models derive per-edge multiplicity caps from the largest reachable weight, including the value of ignored elements
             sig = f"C10/ignore-variants-disagree/{cls}/edge-cap-uses-ignored-values"
         else:
